@@ -28,7 +28,8 @@ def main():
     for f in demos:
         if f.endswith("_test.go"):
             txt = open(os.path.join(d, f)).read()
-            pkg = txt.split("package ", 1)[1].split()[0]
+            import re as _re
+            pkg = _re.search(r"^package (\w+)", txt, _re.M).group(1)
             # find the package directory named in meta or by package name
             cand = meta.get("demo_dir") or meta.get("package_dir")
             if not cand:
